@@ -70,13 +70,13 @@ let print_req (r : reqsum) : string =
     (hex_of_bytes r.r_host) h (hex_of_bytes r.r_body) (hex_of_bytes r.r_tag)
 
 (* a run of k Scan calls as the harness prints it; [bld] materialises a delivery *)
-let print_run (bld : 'e -> reqsum option) (k : int) (rs : 'e sres list) : string =
+let print_run (bld : 'e -> string option) (k : int) (rs : 'e sres list) : string =
   let rec go n rs acc =
     match rs with
     | [] -> List.rev ((if n >= k then "more" else "truncated") :: acc)
     | SDeliver e :: r ->
         (match bld e with
-         | Some q -> go (n + 1) r (print_req q :: acc)
+         | Some q -> go (n + 1) r (q :: acc)
          | None -> List.rev ("invalid" :: acc))
     | SErr _ :: _ -> List.rev ("err" :: acc)
     | SPanic :: _ -> List.rev ("panic" :: acc)
@@ -87,8 +87,24 @@ let print_run (bld : 'e -> reqsum option) (k : int) (rs : 'e sres list) : string
   String.concat " " (go 0 rs [])
 
 (* the specification side: k deliveries of the expected entries, cyclically *)
-let print_expected (bld : 'e -> reqsum option) (k : int) (es : 'e list) : string =
+let print_expected (bld : 'e -> string option) (k : int) (es : 'e list) : string =
   print_run bld k (List.map (fun e -> SDeliver e) (cycle_take (nat_of_int k) es es))
+
+(* Ammo.BuildRequest through the url oracle *)
+let bld_entry (e : entry) : string option =
+  match build url_parse e with Some q -> Some (print_req q) | None -> None
+
+(* RawAmmo.BuildRequest: http.ReadRequest is an oracle; its answer is the printed request
+   with an empty tag field, the tag comes from the ammo header line *)
+let bld_raw (e : rentry) : string option =
+  match ask "req" e.rb_buf with
+  | None -> None
+  | Some a ->
+      (match split_blank a with
+       | ["1"; d] ->
+           let i = String.rindex d ':' in
+           Some (String.sub d 0 (i + 1) ^ hex_of_bytes e.rb_tag)
+       | _ -> None)
 
 (* ---------- case tokens ---------- *)
 let colon s = String.split_on_char ':' s
@@ -107,3 +123,24 @@ let parse_tok (t : string) : tok =
   | _ -> failwith ("bad token " ^ t)
 
 let lay_of (l, t, cr) = { l_lead = l; l_trail = t; l_cr = cr }
+
+let parse_entity (t : string) : entity =
+  match colon t with
+  | ["E"; host; m; uri; tag; body; hs] ->
+      let hl = if hs = "-" then [] else
+        List.map (fun kv -> match String.split_on_char '=' kv with
+                            | [k; v] -> (hx k, hx v) | _ -> failwith "bad header") (String.split_on_char ';' hs) in
+      { j_host = hx host; j_method = hx m; j_uri = hx uri; j_headers = hl; j_tag = hx tag; j_body = hx body }
+  | _ -> failwith ("bad entity " ^ t)
+
+(* encoding/json on the whole file, as jsonline.go uses it *)
+type jfile = JTokErr | JArr of bool * string list | JStream of bool * string list | JMiss
+let json_file (file : n list) : jfile =
+  match ask "json" file with
+  | None -> JMiss
+  | Some a ->
+      (match split_blank a with
+       | "T" :: _ -> JTokErr
+       | "A" :: st :: toks -> JArr (st = "eof", toks)
+       | "S" :: st :: toks -> JStream (st = "eof", toks)
+       | _ -> JMiss)
